@@ -644,6 +644,38 @@ func propF(c FCase) error {
 				return fmt.Errorf("%v\n%s", err, clip(string(data)))
 			}
 		}
+		// the same destination value decoded into a second time (a caller that polls a
+		// service into one variable): the features are those of the second document
+		var reused geojson.FeatureCollection
+		const first = `{"type":"FeatureCollection","bbox":[-1,-2,3,4],"features":[` +
+			`{"type":"Feature","id":"old-0","bbox":[0,0,1,1],"geometry":{"type":"Point","coordinates":[1,2]},"properties":{"a":1}},` +
+			`{"type":"Feature","id":"old-1","bbox":[5,5,6,6],"geometry":{"type":"Point","coordinates":[3,4]},"properties":{"b":2}},` +
+			`{"type":"Feature","id":"old-2","bbox":[7,7,8,8],"geometry":null,"properties":null},` +
+			`{"type":"Feature","id":"old-3","geometry":{"type":"LineString","coordinates":[[0,0],[1,1]]},"properties":{}}]}`
+		if err := json.Unmarshal([]byte(first), &reused); err != nil {
+			return fmt.Errorf("unmarshal of a plain feature collection: %v", err)
+		}
+		kept := reused.Features // what the caller got the first time stays what it was
+		keptIDs := make([]string, len(kept))
+		for i, f := range kept {
+			keptIDs[i] = f.ID
+		}
+		if err := json.Unmarshal(data, &reused); err != nil {
+			return fmt.Errorf("unmarshal collection into a value used before: %v\n%s", err, clip(string(data)))
+		}
+		if len(reused.Features) != len(c.Feats) {
+			return fmt.Errorf("into a value used before: %d features, want %d", len(reused.Features), len(c.Feats))
+		}
+		for i := range c.Feats {
+			if err := sameFeature(fmt.Sprintf("into a value used before: feature %d", i), c.Feats[i], reused.Features[i]); err != nil {
+				return fmt.Errorf("%v\n%s", err, clip(string(data)))
+			}
+		}
+		for i, f := range kept {
+			if f.ID != keptIDs[i] {
+				return fmt.Errorf("feature %d kept from the first decode changed its id from %q to %q when the collection value was decoded into again", i, keptIDs[i], f.ID)
+			}
+		}
 		return nil
 	})
 }
